@@ -172,10 +172,17 @@ def script_from_model(model, rng, uniform_grid=None):
     return out
 
 
+# range of log(-log(u)) for u a double in [2^-53, 1 - 2^-53] (random.random()
+# returns multiples of 2^-53; u == 0 has probability 2^-53 and raises in the
+# real code, it is outside the stub)
+GUMBEL_HI = 36.75  # -log(-log(1 - 2^-53)) = 36.74
+GUMBEL_LO = 3.61  # log(-log(2^-53)) = 3.604
+
+
 class SymGumbel:
     """Stand-in for cotengra.utils.GumbelBatchedGenerator: the support of the
-    Gumbel distribution is the whole real line, so each call is an arbitrary
-    real."""
+    Gumbel distribution over doubles is [-3.61, 36.75]; each call is an arbitrary
+    real in that range."""
 
     instances = []
 
@@ -184,7 +191,8 @@ class SymGumbel:
         SymGumbel.instances.append(self)
 
     def __call__(self):
-        v = symx.sym_real("gumbel")
+        # -log(-log(u)) for a double u in [2^-53, 1-2^-53]
+        v = symx.sym_real("gumbel", -GUMBEL_LO, GUMBEL_HI)
         self.draws.append(v)
         return v
 
@@ -200,3 +208,143 @@ class ScriptedGumbel:
         v = ScriptedGumbel.script[ScriptedGumbel.pos]
         ScriptedGumbel.pos += 1
         return float(v)
+
+
+# ---------------------------------------------------------------------------
+# logs of uniform draws
+
+
+class _InnerLog:
+    """log(u) for a uniform draw u in (0,1): only ever negated and fed to a
+    second log (Gumbel trick) in the code under test."""
+
+    def __init__(self, u):
+        self.u = u
+
+    def __neg__(self):
+        return _NegInnerLog(self.u)
+
+
+class _NegInnerLog:
+    def __init__(self, u):
+        self.u = u
+
+
+LINKS = {}  # id(z3 expr of the uniform draw) -> ("exp", lu) or ("gumbel", g)
+
+
+def sym_log(x):
+    """math.log stand-in.
+    * log(u), u a symbolic uniform draw: fresh real <= 0 (recorded so that a
+      replay can use u = exp(value));
+    * log(-log(u)): an arbitrary real (support of the Gumbel distribution);
+    * concrete argument: the real math.log."""
+    import math
+
+    if isinstance(x, _NegInnerLog):
+        g = symx.sym_real("loglog", -GUMBEL_HI, GUMBEL_LO)
+        LINKS[x.u.e.get_id()] = ("gumbel", g)
+        return g
+    if type(x) is SReal:
+        return _InnerLogReal(x)
+    if type(x) is SInt:
+        return math.log(int(x))
+    return math.log(x)
+
+
+class _InnerLogReal(SReal):
+    """log(u) as a fresh real <= 0 that also remembers u (so that -log(u) can
+    be recognised by a following log)."""
+
+    __slots__ = ("u",)
+
+    def __init__(self, u):
+        lu = symx.sym_real("logu", -GUMBEL_HI, 0)
+        SReal.__init__(self, lu.e)
+        self.u = u
+        LINKS[u.e.get_id()] = ("exp", lu)
+
+    def __neg__(self):
+        r = _NegLogReal(-self.e)
+        r.u = self.u
+        return r
+
+
+class _NegLogReal(SReal):
+    __slots__ = ("u",)
+
+
+def sym_log2(x):
+    import math
+
+    if type(x) is _NegLogReal or isinstance(x, _NegInnerLog):
+        return sym_log_neglog(x)
+    return math.log2(x)
+
+
+def sym_log_neglog(x):
+    g = symx.sym_real("loglog", -GUMBEL_HI, GUMBEL_LO)
+    LINKS[x.u.e.get_id()] = ("gumbel", g)
+    return g
+
+
+def sym_log_any(x):
+    """log stand-in used for module-level `log` names (slicer): handles
+    log(u) and log(-log(u))."""
+    import math
+
+    if type(x) is _NegLogReal:
+        return sym_log_neglog(x)
+    if type(x) is SReal:
+        return _InnerLogReal(x)
+    if type(x) is SInt:
+        return math.log(int(x))
+    return math.log(x)
+
+
+def math_proxy_with_symlog():
+    import math
+    import types
+
+    m = types.ModuleType("math_symlog")
+    m.__dict__.update(math.__dict__)
+    m.log = sym_log_any
+    return m
+
+
+def script_from_model_linked(model, rng):
+    """like script_from_model, but a uniform draw that only entered the
+    computation through log(u) / log(-log(u)) is reconstructed from the model
+    value of that logarithm."""
+    import math
+
+    out = []
+    for kind, v in rng.draws:
+        if kind == "random" and symx.is_sym(v) and v.e.get_id() in LINKS:
+            how, var = LINKS[v.e.get_id()]
+            x = float(symx.eval_model(model, var))
+            if how == "exp":
+                val = math.exp(x)
+            else:
+                val = math.exp(-math.exp(min(x, 50.0)))
+            val = min(max(val, 1e-300), 1 - 1e-16)
+        elif symx.is_sym(v):
+            val = symx.eval_model(model, v)
+            val = float(val) if kind in ("random", "uniform", "gauss", "expo") else int(val)
+        else:
+            val = v
+        out.append((kind, val))
+    return out
+
+
+class GlobalRandomStub:
+    """Stand-in for the `random` module as seen from cotengra.utils: every
+    module-level draw is a fresh solver variable."""
+
+    Random = _random.Random
+
+    def __init__(self, tag="grng"):
+        self._rng = SymRng(tag)
+
+    def __getattr__(self, name):
+        return getattr(self._rng, name)
